@@ -675,6 +675,9 @@ func filterRow(f *btpb.RowFilter, r *btpb.Row) (bool, error) {
 		}
 		return count > 0, nil
 	case *btpb.RowFilter_CellsPerColumnLimitFilter:
+		if f.CellsPerColumnLimitFilter < 0 {
+			return false, status.Errorf(codes.InvalidArgument, "cells_per_column_limit_filter must not be negative")
+		}
 		lim := int(f.CellsPerColumnLimitFilter)
 		for _, fam := range r.Families {
 			for _, col := range fam.Columns {
@@ -709,6 +712,9 @@ func filterRow(f *btpb.RowFilter, r *btpb.Row) (bool, error) {
 		}
 	case *btpb.RowFilter_CellsPerRowLimitFilter:
 		// Grab the first n cells in the row.
+		if f.CellsPerRowLimitFilter < 0 {
+			return false, status.Errorf(codes.InvalidArgument, "cells_per_row_limit_filter must not be negative")
+		}
 		lim := int(f.CellsPerRowLimitFilter)
 		for _, fam := range r.Families {
 			for _, col := range fam.Columns {
@@ -723,6 +729,9 @@ func filterRow(f *btpb.RowFilter, r *btpb.Row) (bool, error) {
 		return true, nil
 	case *btpb.RowFilter_CellsPerRowOffsetFilter:
 		// Skip the first n cells in the row.
+		if f.CellsPerRowOffsetFilter < 0 {
+			return false, status.Errorf(codes.InvalidArgument, "cells_per_row_offset_filter must not be negative")
+		}
 		offset := int(f.CellsPerRowOffsetFilter)
 		for _, fam := range r.Families {
 			for _, col := range fam.Columns {
